@@ -3,7 +3,7 @@ CONSTANTS MaxNode = 3
           MaxBlock = 2
           MaxReq = 2
           MaxSess = 1
-          D = 6
+          D = 4
           Places <- PlacesNone
           SessChoices = {1}
           ReqChoices <- ReqOne
